@@ -90,6 +90,20 @@ def gen_script(rng, fens, games):
             else: lim = "wtime 2000 btime 2000"
             if rng.random() < 0.22: lim = "ponder " + lim; p = True
             if rng.random() < 0.1: lim += " searchmoves e2e4 d2d4 g8f6"
+            if rng.random() < 0.4:
+                # the sub-commands of `go` may come in any order (UCI): shuffle the groups, so that `searchmoves <moves>` and
+                # `ponder` / `infinite` are also followed by other sub-commands
+                toks, groups = lim.split(), []
+                while toks:
+                    t = toks.pop(0)
+                    if t in ("ponder", "infinite"): groups.append([t])
+                    elif t == "searchmoves":
+                        g = [t]
+                        while toks and len(toks[0]) in (4, 5) and toks[0][0] in "abcdefgh" and toks[0][1].isdigit(): g.append(toks.pop(0))
+                        groups.append(g)
+                    else: groups.append([t, toks.pop(0)] if toks else [t])
+                rng.shuffle(groups)
+                lim = " ".join(" ".join(g) for g in groups)
             tok = ">go" + ("P" if p else "") + ("I" if i else "")
             sc.append(("go " + lim, tok, rng.choice(["none", "none", "info", "best"]) if not (p or i) else rng.choice(["none", "info", "short"])))
         elif x < 0.87: sc.append(("stop", ">stop", rng.choice(["none", "short"])))
